@@ -60,10 +60,13 @@ def plan(prop, tier, seed):
 
 LONGHIST = [
     # (ib, bb, assoc, policy, wt, pen, accesses quick, accesses thorough, longest hot phase quick / thorough)
-    (0, 0, 4, "lru", False, 1, 72000, 150000, 66500, 66500),
+    # the first hot phase of the first configuration brings one set to 65 000 changes of its most recently used block;
+    # the ordinary phases that follow (blocks touched, a few hundred alternating accesses, conflict misses) then carry it
+    # across 2^16 with recently touched idle blocks around - where a wrapped 16-bit age stamp picks the wrong victim
+    (0, 0, 4, "lru", False, 1, 76000, 150000, 65000, 65000),
     (0, 0, 512, "lru", True, 2, 4000, 12000, 300, 600),
     (0, 0, 300, "lru", False, 1, 3000, 9000, 300, 600),
-    (1, 1, 3, "lru", False, 3, 12000, 150000, 700, 66500),
+    (1, 1, 3, "lru", False, 3, 12000, 150000, 700, 65000),
     (0, 1, 4, "plru", False, 1, 12000, 100000, 700, 40000),
     (1, 0, 8, "lru", True, 1, 12000, 100000, 700, 40000),
     (0, 0, 256, "plru", False, 1, 3000, 9000, 300, 600),
@@ -129,8 +132,9 @@ def run_longhist(spec, res, prop):
         hot = rng.sample(bl, 2 if first_phase else rng.choice([1, 2, 2, 2, 3]))
         L = hotmax if first_phase else rng.choice([3, 17, 130, 255, 256, 257, 300, 515, min(hotmax, 1030)])
         first_phase = False
+        strict = L > 5000  # (the long phase alternates strictly: every access changes the most recently used block)
         for i in range(min(L, n - done + 8)):
-            b = hot[i % len(hot)] if rng.random() < 0.9 else rng.choice(hot)
+            b = hot[i % len(hot)] if strict or rng.random() < 0.9 else rng.choice(hot)
             if not access(b, rng.random() < 0.25, i):
                 return
         res.count("long_history_hot_phases")
@@ -144,7 +148,10 @@ def run_longhist(spec, res, prop):
             tags_real = resident_view(m)[0]
             if tags_real != ref.resident_tags():
                 res.violation("C10", "displaced-way", "long history (%r): after access #%d (a hot phase of %d accesses on %d blocks, then conflict misses) the resident tags by way are %r, the %s reference for this access history gives %r" % (cfg, done, L, len(hot), tags_real, policy, ref.resident_tags()), case)
-                return
+                if prop == "C10":
+                    return
+                # (for the other properties the history goes on: the wrong victim shows in their own terms - a miss
+                # where the reference cache has a hit - at the re-accesses below)
         # ... then every block of the set once more (a wrong victim also shows as a miss / a stale value)
         for b in rng.sample(bl, len(bl) if len(bl) <= 12 else 12):
             if not access(b, False, 0):
